@@ -615,6 +615,40 @@ fn http_entry(case: &Value, rules: &[Rule]) -> CaseResult {
             }
         }
     }
+    // the permission is checked per request, not per connection: every ordered pair (and one
+    // triple) of paths on ONE keep-alive connection must get the statuses the same requests get on
+    // connections of their own
+    let known = [("/", 1usize), ("/metrics", 2), ("/api/v1/leases.json", 3)];
+    for (via, cl) in &vias {
+        let mut seqs: Vec<Vec<usize>> = vec![];
+        for a in 0..3 {
+            for b in 0..3 {
+                seqs.push(vec![a, b]);
+            }
+        }
+        seqs.push(vec![0, 1, 2]);
+        seqs.push(vec![2, 1, 0]);
+        for sq in seqs {
+            let paths: Vec<&str> = sq.iter().map(|i| known[*i].0).collect();
+            let want: Vec<u16> = sq.iter().map(|i| if ref_decide(rules, cl, known[*i].1) { 200 } else { 403 }).collect();
+            n += paths.len();
+            let sub = json!({"engine":"enet","check":"c08","entry":"http","list":case["list"],"via":format!("{:?}", via),"keep_alive":paths});
+            match rig.get_seq(*via, &paths) {
+                Err(e) => return CaseResult::machinery(e),
+                Ok(got) => {
+                    // the server may close after a response; what it did answer must be right
+                    if got.is_empty() || got.iter().zip(want.iter()).any(|(g, w)| g != w) {
+                        res.violations.push(
+                            Violation::new("http-status", format!("acls {} client {:?}: GETs {:?} on one keep-alive connection answered {:?}, first-match reference says {:?}", acl_yaml(rules).trim(), via, paths, got, want), sub)
+                                .sig("entry", "http")
+                                .sig("keep_alive", "yes")
+                                .sig("via", format!("{:?}", via).split('(').next().unwrap_or("")),
+                        );
+                    }
+                }
+            }
+        }
+    }
     let ps = rig.stop();
     if let Some(p) = ps.first() {
         res.violations.push(Violation::new("panic", format!("HTTP task panicked: {} at {}", p.msg, panics::short_loc(&p.loc)), case.clone()).sig("loc", panics::short_loc(&p.loc)).sig("entry", "http"));
